@@ -12,6 +12,14 @@ jsonschema.validate as called by BaseSpec.validate_schema):
   norm    Model/Norm.v norm_wf_list / norm_wb / norm_action_list  vs  spec.to_dict() of accepted documents
   slice   Model/Slice.v slice  vs  parser._parse_def_from_wb on rendered workbook texts
   key_of  Model/Slice.v key_of / is_content  vs  parser._key_of / _is_content line by line
+  reparse  the places where the text of a string value is parsed a second time (27 sites enumerated from the source by
+          translate/tr_reparse.py, fail closed): inline parameters of action / workflow / base / one-line retry / on-clause
+          commands, with-items, YAQL / Jinja expressions, input text, version text, task names; at each place inner texts
+          with integers of 4301 / 10000 digits, huge floats, NaN / Infinity, arrays and objects nested 50 / 1000 / 5000 deep,
+          unbalanced nestings, strings of 1e5 (thorough 1e6) characters, escape-heavy strings, non-BMP / surrogate / NUL
+          characters, repeated unclosed expression openers (2e4), and the same shapes at YAML level as controls; through the
+          three parser factories (oracle O1-O3, walk / norm models for the small ones) and, suite reparse_rest, through
+          POST .../validate, POST and PUT of /v2/workflows, /v2/workbooks, /v2/actions of the real pecan application
   speccache  Model/SpecCache.v exec_ops (configured by Gen/SpecCache.v: key component of the four call sites of
           parser.get_workflow_spec_by_definition_id, row fields written by services/workflows.py and workbooks.py)
           vs  sequences of create / update (also within one second, frozen clock) / tick / clear_caches / start /
@@ -30,6 +38,16 @@ Oracle (no model involved), per document:
      at that moment prescribes (output, task list, wf_ex.spec, accepted input) = as after clear_caches()  -> spec-cache:*
   O4 a sample goes through the real services (create_workflows / create_workbook_v2, sqlite) and back through
      parser.get_workflow_spec_by_definition_id before and after clear_caches().
+
+Seeded regression S2 (`except Exception` around json.loads narrowed to json.JSONDecodeError in BaseSpec._parse_cmd_and_input
+and TaskSpec._get_with_items_as_dict): translator tr_reparse fails closed (obligation translate:Gen/Reparse.v: json.loads not
+guarded against ValueError / RecursionError), oracle O1 of suite `reparse` reports internal-error:ValueError@...base.py:_parse_cmd_and_input
+and internal-error:RecursionError / ValueError @...tasks.py:_get_with_items_as_dict with the documents as replay, suite `reparse_rest`
+reports the 5xx answers of validate / create / update.  Own mutations on top: X1 YaqlEvaluator.validate catches only YaqlException
+-> internal-error:ValueError@mistral/expressions/yaql_expression.py:validate (+ rest:*); X2 WITH_ITEMS_PTRN with a nested
+quantifier around the variable-name group -> hang:wf at the with-items place.
+Findings of the `reparse` suite on the tree before fix2 (fixed since): a YAQL expression with an integer of more than 4300 digits
+-> TypeError (the exception object was used as message), the same in Jinja -> ValueError, PARAMS_PTRN quadratic on a long word.
 
 Seeded regression S1 (spec cache keyed on `checksum` only while services/workbooks.py does not fill it): translator
 tr_speccache fails closed (obligation translate:Gen/SpecCache.v), and oracle O5 reports
@@ -88,7 +106,7 @@ from harness import engine_driver  # noqa: first, it selects the threading backe
 from harness import core
 from harness.core import coq_str
 
-GEN = ['Schemas', 'SpecCache']
+GEN = ['Schemas', 'SpecCache', 'Reparse']
 
 MANIFEST = {
     'level_text': 'Coq theorems (all inputs, induction over lists/lines, no axioms): for every canonical rendering the '
@@ -243,7 +261,7 @@ def _ok_str(s):
         o = ord(ch)
         if o < 32 and ch not in '\n\t':
             return False
-        if o == 127:
+        if o == 127 or 0xD800 <= o <= 0xDFFF:
             return False
     return True
 
@@ -524,6 +542,9 @@ def oracle_stability(ctx, kind, text, raw, spec):
             v2 = view_wf(wf2)
             v0 = view_wf(wf)
         except Exception as e:
+            if isinstance(e, RecursionError) and repo_frame(e) == '?':
+                ctx.notes.append('stored-form comparison skipped: the harness itself cannot copy the deeply nested value of %r' % wf.get_name())
+                continue
             ctx.fail('stored-form:rebuild-raises:%s@%s' % (type(e).__name__, repo_frame(e)),
                      'rebuilding accepted workflow %r from its stored form raises %s' % (wf.get_name(), type(e).__name__),
                      {'kind': kind, 'text': text, 'workflow': wf.get_name()})
@@ -1126,7 +1147,7 @@ def kinds_for(text):
     return ['wf', 'wb', 'act']
 
 
-def process_doc(ctx, kind, text, origin, walk_batch, norm_batch, stats, expect=None, model=True):
+def process_doc(ctx, kind, text, origin, walk_batch, norm_batch, stats, expect=None, model=True, recipe=None):
     """oracle O1-O3 on the real code + queue the model evaluations"""
     B = boot()
     r = run_real(kind, text)
@@ -1137,14 +1158,14 @@ def process_doc(ctx, kind, text, origin, walk_batch, norm_batch, stats, expect=N
     if r['verdict'] == 'crash':
         stats['signatures'][r['sig']] += 1
         ctx.fail(r['sig'], '%s raises %s (%s) instead of a definition error' % (
-            B['entry'][kind].__name__, r['sig'].split(':', 1)[1], r['err']), {'kind': kind, 'text': text if len(text) < 20000 else text[:2000] + '...[%d chars]' % len(text), 'origin': origin,
-                                                                              'text_sha1': core.hashlib.sha1(text.encode()).hexdigest(), 'text_len': len(text)})
+            B['entry'][kind].__name__, r['sig'].split(':', 1)[1], r['err']), {'kind': kind, 'text': text if len(text) < 300000 else text[:2000] + '...[%d chars]' % len(text), 'origin': origin, 'recipe': recipe,
+                                                                              'text_sha1': core.hashlib.sha1(text.encode('utf-8', 'surrogatepass')).hexdigest(), 'text_len': len(text)})
     elif r['verdict'] == 'none':
         ctx.fail('accepted-unvalidated:%s-returns-None' % kind,
                  '%s returns None (nothing validated, callers then fail with AttributeError) for a document whose version is not the string "2.0"' % B['entry'][kind].__name__,
                  {'kind': kind, 'text': text, 'origin': origin})
     elif r['verdict'] == 'timeout':
-        ctx.fail(r['sig'], 'validation of a %d byte document does not finish within %ds' % (len(text), DOC_LIMIT_S), {'kind': kind, 'text': text, 'origin': origin})
+        ctx.fail(r['sig'], 'validation of a %d byte document does not finish within %ds' % (len(text), DOC_LIMIT_S), {'kind': kind, 'text': text if len(text) < 300000 else text[:2000], 'origin': origin, 'recipe': recipe, 'text_len': len(text)})
     if expect is not None and r['verdict'] != expect:
         ctx.disagree('corpus', {'kind': kind, 'text': text[:300]}, expect, r['verdict'])
     raw = None
@@ -1167,6 +1188,9 @@ def process_doc(ctx, kind, text, origin, walk_batch, norm_batch, stats, expect=N
         except DocTimeout:
             raise
         except Exception as e:
+            if isinstance(e, RecursionError) and repo_frame(e) == '?':
+                ctx.notes.append('oracle O2/O3 skipped for a deeply nested accepted document (harness recursion limit)')
+                return r
             ctx.fail('oracle-raises:%s@%s' % (type(e).__name__, repo_frame(e)), 'checking the accepted definition raises %s: %s' % (type(e).__name__, e),
                      {'kind': kind, 'text': text})
     if not model or len(text) > MAX_MODEL_TEXT:
@@ -1188,7 +1212,7 @@ def process_doc(ctx, kind, text, origin, walk_batch, norm_batch, stats, expect=N
         return r
     stats['model']['walk'] += 1
     walk_batch.add(we, {'kind': kind, 'text': text, 'real': {'verdict': r['verdict'], 'trace': r['trace'], 'sig': r['sig']}})
-    if r['verdict'] == 'accept' and (origin == 'corpus' or zlib.crc32(text.encode()) % 100 < 55):
+    if r['verdict'] == 'accept' and (origin == 'corpus' or zlib.crc32(text.encode('utf-8', 'surrogatepass')) % 100 < 55):
         try:
             ne = norm_expr(kind, raw0, r['spec'].to_dict())
             norm_batch.add(ne, {'kind': kind, 'text': text})
@@ -1737,6 +1761,173 @@ def suite_speccache(ctx):
     ctx.sample({'suite': 'speccache', 'ops': SC_CORPUS[1]})
 
 
+# ---------------------------------------------------------------------------
+# strings that the DSL parses a second time (sites enumerated by translate/tr_reparse.py):
+# pathological inner texts at every such place, and the same shapes at YAML level as controls
+
+def rp_deep(o, c, n, mid=''):
+    return o * n + mid + c * n
+
+
+def rp_payloads(big):
+    """name -> inner text; `big` = length of the long-string shapes"""
+    return collections.OrderedDict([
+        ('int4301', '9' * 4301), ('int10000', '9' * 10000), ('negint5000', '-' + '9' * 5000),
+        ('float_huge', '1e99999'), ('float_neg_huge', '-1e99999'), ('float_long', '1.' + '0' * 5000 + '1'),
+        ('nan', 'NaN'), ('inf', 'Infinity'), ('neg_inf', '-Infinity'), ('arr_nan_inf', '[NaN, Infinity, -Infinity]'),
+        ('arr_float_huge', '[1e99999, -1e99999]'), ('arr_int5000', '[' + '9' * 5000 + ']'),
+        ('arr50', rp_deep('[', ']', 50)), ('arr1000', rp_deep('[', ']', 1000)), ('arr5000', rp_deep('[', ']', 5000)),
+        ('obj50', rp_deep('{"a":', '}', 50, '1')), ('obj1000', rp_deep('{"a":', '}', 1000, '1')),
+        ('arr_obj1000', '[' + rp_deep('{"a":', '}', 1000, '1') + ']'), ('arr_obj5000', '[' + rp_deep('{"a":', '}', 5000, '1') + ']'),
+        ('open1000', '[' * 1000), ('open5000', '[' * 5000), ('close5000', ']' * 5000), ('open_obj5000', '{"a":' * 5000),
+        ('unbalanced', '[' * 3000 + ']' * 10), ('arr_unbalanced', '[' + '[' * 3000 + ']' * 10 + ']'),
+        ('quoted_long', '"' + 'x' * big + '"'), ('bare_long', 'x' * big), ('unterminated_long', '"' + 'x' * big),
+        ('dashes_long', '-' * big), ('words_long', 'ab ' * (big // 3)), ('assignments', 'a=' * 10000),
+        ('arr_long', '["' + 'x' * big + '"]'),
+        ('escapes', '"' + '\\"' * 5000 + '"'), ('backslashes', '\\' * 5001), ('u0000', '"' + '\\u0000' * 2000 + '"'),
+        ('arr_escapes', '["' + '\\\\' * 5000 + '", "\\n\\t\\u00e9"]'), ('arr_bad_escape', '["\\x"]'),
+        ('non_bmp', '"\U0001F600\U0001F600"'), ('arr_non_bmp', '["\U0001F600"]'), ('surrogate_escape', '["\\ud800"]'),
+        ('lone_surrogate', '"\ud800"'), ('nul', '"a\x00b"'), ('arr_nul_escape', '["a\\u0000b"]'),
+        ('parens2000', '(' * 2000 + '1' + ')' * 2000), ('path5000', '$' + '.a' * 5000),
+        ('yaql_openers', '<% ' * 6000), ('jinja_openers', '{{ ' * 6000), ('eq_yaql_openers', 'a=<% ' * 4000),
+    ])
+
+
+_RP_WF = "version: '2.0'\nwf:\n  tasks:\n    t1:\n"
+
+
+def rp_places(p):
+    """place -> (entry point kind, document); the payload lands inside a string the DSL parses again
+    (or, for the controls, as a YAML value)"""
+    q1 = p.replace("'", "''")
+    return collections.OrderedDict([
+        ('action_param', ('wf', _RP_WF + "      action: std.echo output=%s\n" % p)),
+        ('action_param_array', ('wf', _RP_WF + "      action: std.echo output=[%s]\n" % p)),
+        ('workflow_param', ('wf', _RP_WF + "      workflow: sub a=%s b=1\n" % p)),
+        ('retry_one_line', ('wf', _RP_WF + "      action: std.noop\n      retry: count=%s delay=1\n" % p)),
+        ('on_clause_command', ('wf', _RP_WF + "      action: std.noop\n      on-success: fail msg=%s\n" % p)),
+        ('on_clause_function', ('wf', _RP_WF + "      action: std.noop\n      on-error:\n        - fail(msg=%s)\n" % p)),
+        ('on_clause_next', ('wf', _RP_WF + "      action: std.noop\n      on-complete:\n        next: 'noop x=%s'\n" % q1)),
+        ('with_items', ('wf', _RP_WF + "      action: std.noop\n      with-items: x in %s\n" % p)),
+        ('with_items_array', ('wf', _RP_WF + "      action: std.noop\n      with-items:\n        - x in [%s]\n" % p)),
+        ('yaql', ('wf', "version: '2.0'\nwf:\n  output:\n    o: <%% %s %%>\n  tasks:\n    t1:\n      action: std.noop\n" % p)),
+        ('jinja', ('wf', "version: '2.0'\nwf:\n  output:\n    o: '{{ %s }}'\n  tasks:\n    t1:\n      action: std.noop\n" % q1)),
+        ('input_text', ('wf', _RP_WF + "      action: std.echo\n      input: '%s'\n" % q1)),
+        ('version_text', ('wf', "version: '%s'\nwf:\n  tasks:\n    t1:\n      action: std.noop\n" % q1)),
+        ('task_name', ('wf', "version: '2.0'\nwf:\n  tasks:\n    '%s':\n      action: std.noop\n" % q1)),
+        ('base_param', ('act', "version: '2.0'\na1:\n  base: std.echo output=%s\n" % p)),
+        ('wb_base_param', ('wb', "version: '2.0'\nname: wb\nactions:\n  a1:\n    base: std.echo output=%s\nworkflows:\n  wf:\n    tasks:\n"
+                                 "      t1:\n        action: a1 x=%s\n" % (p, p))),
+        ('wb_version_text', ('wb', "version: '%s'\nname: wb\nworkflows:\n  wf:\n    tasks:\n      t1:\n        action: std.noop\n" % q1)),
+        # controls: the same shape as a YAML value / YAML structure
+        ('yaml_value', ('wf', "version: '2.0'\nwf:\n  output:\n    o: %s\n  tasks:\n    t1:\n      action: std.noop\n" % p)),
+        ('yaml_input_value', ('wf', _RP_WF + "      action: std.echo\n      input:\n        output: %s\n" % p)),
+    ])
+
+
+RP_CORPUS = [
+    # the scenario of the seeded change: json.loads of an inner literal raises ValueError / RecursionError
+    ('action_param', 'int4301', 'accept'), ('on_clause_command', 'int4301', 'accept'), ('base_param', 'int10000', 'accept'),
+    ('retry_one_line', 'int4301', 'dsl'), ('action_param', 'arr1000', 'accept'), ('action_param_array', 'arr5000', 'accept'),
+    ('with_items', 'arr_int5000', 'dsl'), ('with_items', 'open5000', 'dsl'),
+    ('with_items', 'arr50', 'accept'), ('action_param', 'arr_nan_inf', 'accept'), ('workflow_param', 'arr_obj1000', 'accept'),
+    # expression parsers and the command regexes
+    ('yaql', 'int4301', 'dsl'), ('jinja', 'int4301', 'dsl'), ('jinja', 'parens2000', 'dsl'), ('yaql', 'parens2000', 'accept'),
+    ('action_param', 'bare_long', 'accept'), ('retry_one_line', 'dashes_long', 'dsl'), ('yaml_value', 'int4301', 'dsl'),
+    ('yaml_value', 'arr5000', 'dsl'), ('version_text', 'float_huge', 'accept'), ('wb_version_text', 'int4301', 'dsl'),
+]
+
+
+def rp_cases(ctx):
+    """(place, payload name) pairs: corpus, every payload at the inline-parameter place, and a seeded
+    rotation of the other places (all pairs in the thorough tier)"""
+    pays = list(rp_payloads(10))
+    places = list(rp_places('x'))
+    pairs = [(pl, pn) for pl, pn, _ in RP_CORPUS]
+    pairs += [('action_param', pn) for pn in pays]
+    must = ['int4301', 'arr5000', 'open5000', 'bare_long', 'words_long', 'dashes_long', 'unterminated_long']   # at EVERY place
+    for pl in places:
+        chosen = pays if ctx.thorough() else must + ctx.rng.sample([p for p in pays if p not in must], 4)
+        pairs += [(pl, pn) for pn in chosen]
+    seen, out = set(), []
+    for x in pairs:
+        if x not in seen:
+            seen.add(x)
+            out.append(x)
+    return out
+
+
+def rp_document(place, payload, big):
+    return rp_places(rp_payloads(big)[payload])[place]
+
+
+def suite_reparse(ctx):
+    """oracle O1 (+ O2/O3 for the accepted ones, + the walk / norm models for the small ones) on documents whose
+    re-parsed strings carry pathological literals"""
+    stats = new_stats()
+    walk_batch, norm_batch = Batch('c14rpwalk'), Batch('c14rpnorm')
+    big = ctx.n(100000, 1000000)
+    expect = {(pl, pn): e for pl, pn, e in RP_CORPUS}
+    by_place = collections.Counter()
+    slow = []
+    for place, pn in rp_cases(ctx):
+        kind, text = rp_document(place, pn, big)
+        r = process_doc(ctx, kind, text, 'reparse:%s:%s' % (place, pn), walk_batch, norm_batch, stats,
+                        expect=expect.get((place, pn)), recipe={'place': place, 'payload': pn, 'big': big})
+        by_place[place] += 1
+        if r['time'] > 2:
+            slow.append((place, pn, round(r['time'], 1)))
+    finish_batches(ctx, walk_batch, norm_batch, stats)
+    ctx.cov['suites'].setdefault('reparse', {}).update(
+        documents=sum(by_place.values()), by_place=dict(by_place), verdicts=dict(stats['verdict']),
+        model_class=dict(stats['model']), slower_than_2s=slow[:20], long_string_chars=big)
+
+
+def suite_reparse_rest(ctx):
+    """the same documents through the REST validate endpoints and through create / update (real pecan application,
+    real controllers and services): never a 5xx answer"""
+    import pecan
+    import pecan.testing
+    from oslo_config import cfg
+    from harness import engine_driver
+    from mistral.api import app as pecan_app
+    drv = engine_driver.Driver('legacy', ctx.seed)
+    cfg.CONF.set_override('auth_enable', False, group='pecan')
+    cfg.CONF.set_override('enabled', False, group='cron_trigger')
+    app = pecan.testing.load_test_app(dict(pecan_app.get_pecan_config()))
+    url = {'wf': '/v2/workflows', 'wb': '/v2/workbooks', 'act': '/v2/actions'}
+    big = 20000
+    pairs = [(pl, pn) for pl, pn, _ in RP_CORPUS]
+    pays = list(rp_payloads(10))
+    for pl in rp_places('x'):
+        pairs += [(pl, pn) for pn in ctx.rng.sample(pays, ctx.n(1, 12))]
+    n = 0
+    drv.reset(ctx.seed)
+    for place, pn in pairs:
+        kind, text = rp_document(place, pn, big)
+        for method, path, okset in (('post', url[kind] + '/validate', {200}), ('post', url[kind], {201, 400, 409}),
+                                    ('put', url[kind], {200, 400, 404})):
+            signal.alarm(DOC_LIMIT_S * 2)
+            try:
+                resp = getattr(app, method)(path, text.encode('utf-8', 'surrogatepass'), headers={'Content-Type': 'text/plain'}, expect_errors=True)
+                status = resp.status_int
+            except DocTimeout:
+                status = 'timeout'
+            except Exception as e:
+                status = 'raises:%s' % type(e).__name__
+            finally:
+                signal.alarm(0)
+            n += 1
+            ctx.count('reparse_rest', (method, path, place, pn), nontrivial=True)
+            if status not in okset:
+                ctx.fail('rest:%s:%s %s' % (status, method.upper(), path),
+                         '%s %s answers %s for a definition whose %s carries the inner text %r (must be %s)' % (
+                             method.upper(), path, status, place, pn, sorted(okset)),
+                         {'kind': kind, 'text': text if len(text) < 300000 else None, 'recipe': {'place': place, 'payload': pn, 'big': big},
+                          'rest': [method, path]})
+    ctx.cov['suites'].setdefault('reparse_rest', {}).update(requests=n)
+
+
 def run(ctx):
     boot()
     ctx.cov['rule'] = ('documents = corpus + every bundled definition (tests resources, rally jobs, doc examples) through all three entry points '
@@ -1748,8 +1939,15 @@ def run(ctx):
     seeds = []
 
     def guarded(name, fn):
+        t0 = time.time()
         try:
             return fn()
+        finally:
+            ctx.cov['suites'].setdefault('timing', {})[name + '_s'] = round(time.time() - t0, 1)
+
+    def guarded(name, fn, _inner=guarded):
+        try:
+            return _inner(name, fn)
         except core.CoqEvalError as e:
             ctx.obligation('correspondence:%s-model-evaluates' % name, False, str(e))
         except DocTimeout:
@@ -1760,7 +1958,9 @@ def run(ctx):
     seeds = got or [gen_definition(ctx.rng) for _ in range(60)]
     guarded('slice', lambda: suite_slice(ctx, seeds))
     guarded('db_roundtrip', lambda: suite_db_roundtrip(ctx, seeds))
+    guarded('reparse', lambda: suite_reparse(ctx))
     guarded('speccache', lambda: suite_speccache(ctx))
+    guarded('reparse_rest', lambda: suite_reparse_rest(ctx))
     ctx.assumptions += ['regex verdicts and inline-parameter dictionaries are supplied to the model by the real `re` / BaseSpec._parse_cmd_and_input per case',
                         'jsonschema.check_schema memoised per schema object (the schemas are constants)',
                         'totality for arbitrary text is decided by this run, not by a theorem (partial)']
@@ -1804,9 +2004,24 @@ def replay(obj):
             bad += stale
             print('op %d %-8s %-7s stored version %s -> %s %s' % (o[0], o[1], o[2], o[4], 'STALE' if stale else 'ok', o[5] if stale else ''))
         return 1 if bad else 0
+    if r.get('recipe') and (not r.get('text') or r.get('text_len', len(r['text'])) != len(r['text'])):
+        rc = r['recipe']
+        r['kind'], r['text'] = rp_document(rc['place'], rc['payload'], rc['big'])
+        r.pop('text_len', None)
     if 'text' not in r or 'kind' not in r:
         print(json.dumps(obj, indent=1)[:3000])
         return 1
+    if r.get('rest'):
+        ctx = core.Ctx('C14', 'quick', obj.get('seed', 0))
+        boot()
+        rc = r['recipe']
+        global RP_CORPUS
+        RP_CORPUS = [(rc['place'], rc['payload'], None)]
+        ctx.rng.sample = lambda pop, k: []
+        suite_reparse_rest(ctx)
+        for f in ctx.failures:
+            print('  FAIL %s: %s' % (f['signature'], f['what']))
+        return 1 if ctx.failures else 0
     ctx = core.Ctx('C14', 'quick', 0)
     stats = new_stats()
     if r.get('text_len') and r['text_len'] != len(r['text']):
